@@ -935,7 +935,7 @@ impl CharPartition {
             }
         } else {
             // note: we know i < p.len() <= MAX_CHAR so i+1 can't overflow here
-            let next_ai = self.end(i + 1);
+            let next_ai = self.start(i + 1);
             if b < next_ai {
                 // a_i <= b_i < a <= b < a_{i+1}
                 CoverResult::DisjointFromAll
